@@ -1021,7 +1021,8 @@ class AnsiString:
 
         if isinstance(value, AnsiString):
             incoming_str = value._s
-            incoming_fmts = value._fmts
+            # Work on copies of the incoming points: value must not be modified below (it may even be self)
+            incoming_fmts = {k: _AnsiSettingPoint(list(v.add), list(v.rem)) for k, v in value._fmts.items()}
         else:
             raise TypeError(f'value is invalid type: {type(value)}')
 
